@@ -203,11 +203,20 @@ def gen_script(rng, app_slots=False, small=False):
     idxs = list(range(nn))
     if rng.random() < 0.25:
         idxs = sorted(rng.sample(range(nn + 2), nn))
+    # blocked cores / GPUs: the resource manager marks the same indices on every node (C18); a quarter of
+    # the scripts use per-node patterns the resource managers cannot produce (C01-C03 must hold there too)
+    uniform = rng.random() < 0.75
+    bc = rng.randrange(cpn) if rng.random() < 0.3 and cpn > 1 else None
+    bg = rng.randrange(gpn) if rng.random() < 0.3 and gpn > 1 else None
     for i in idxs:
         cores = [0] * cpn
         gpus  = [0] * gpn
-        if rng.random() < 0.15 and cpn > 1: cores[rng.randrange(cpn)] = None       # blocked
-        if rng.random() < 0.15 and gpn > 1: gpus[rng.randrange(gpn)] = None
+        if uniform:
+            if bc is not None: cores[bc] = None
+            if bg is not None: gpus[bg] = None
+        else:
+            if rng.random() < 0.15 and cpn > 1: cores[rng.randrange(cpn)] = None       # blocked
+            if rng.random() < 0.15 and gpn > 1: gpus[rng.randrange(gpn)] = None
         nodes.append({'index': i, 'cores': cores, 'gpus': gpus, 'lfs': lfs, 'mem': mem})
     uid = 0
     iters = []
@@ -440,7 +449,10 @@ def monitor(rp, script, out, tasks, crash, props):
             if st == 'FAILED' and 'never be scheduled' in str(o['exc'].get(uid, '')):
                 # tasks with a colocate tag are confined to the tag's nodes (C02): "fits the idle pilot" is
                 # not decided by the idle node map alone, so they are not judged by this clause
-                if reqs[uid]['colo'] is None and fits_idle(rp, script, reqs[uid]):
+                # ... and with node layouts that differ from node to node (not producible by the resource
+                # managers) the continuous walk depends on where the previous task left _node_offset
+                uniform = len(set((tuple(n['cores']), tuple(n['gpus']), n['lfs'], n['mem']) for n in script['nodes'])) == 1
+                if reqs[uid]['colo'] is None and uniform and fits_idle(rp, script, reqs[uid]):
                     viol.append(('C04', tag + 'fitting-task-failed-for-resources', 'task %d fits the idle pilot' % uid))
         # releases of this iteration (they happen at its end)
         for msg in it['unsched']:
